@@ -102,6 +102,7 @@ pub fn run_check(ctx: &Ctx) -> Outcome {
         "C04" => {
             check_e1(ctx, Prop::C04, &mut out, 12000, 250000);
             check_conv(ctx, crate::conv::ConvProp::C04, &mut out, 2000, 40000);
+            check_dropglue(ctx, &mut out, 2000, 40000);
         }
         "C05" => {
             check_c05(ctx, &mut out);
@@ -156,7 +157,10 @@ pub fn run_check(ctx: &Ctx) -> Outcome {
             check_c16(ctx, &mut out, 8000, 150000);
             check_tinylfu(ctx, crate::e7::E7Prop::C16, &mut out, 4000, 60000, "");
         }
-        "C17" => check_c17(ctx, &mut out, 5000, 100000),
+        "C17" => {
+            check_c17(ctx, &mut out, 5000, 100000);
+            check_conv_det(ctx, &mut out, 2000, 40000);
+        }
         other => out.inconclusive = Some(format!("no check registered for {other}")),
     }
     out
@@ -215,9 +219,17 @@ pub fn replay(prop: &str, engine: &str, case: &Value) -> Result<Option<Violation
             let c: crate::multi::C16Case = serde_json::from_value(case.clone()).map_err(|e| e.to_string())?;
             Ok(exec_c16(&c).violation)
         }
+        "dropglue" => {
+            let c: crate::vtype::VCase = serde_json::from_value(case.clone()).map_err(|e| e.to_string())?;
+            Ok(crate::vtype::run_dropglue(&c).violation)
+        }
         "vtype" => {
             let c: crate::vtype::VCase = serde_json::from_value(case.clone()).map_err(|e| e.to_string())?;
             Ok(crate::vtype::run_vtype(&c).violation)
+        }
+        "convd" => {
+            let c: crate::conv::ConvCase = serde_json::from_value(case.clone()).map_err(|e| e.to_string())?;
+            Ok(crate::conv::run_conv_det(&c).violation)
         }
         "convf" => {
             let c: crate::conv::ConvCase = serde_json::from_value(case.clone()).map_err(|e| e.to_string())?;
